@@ -53,6 +53,11 @@ def _remove_ctor_regs(spec, pred):
     for bp, i, it in list(_bp_items(spec["bp"])):
         if it[0] == "ctor" and pred(it[1]):
             bp["items"].remove(it)
+    # a constructor that lives in a module imported as a whole (`module_import`) has no registration item of its own: it is
+    # taken out of that module, otherwise the import still registers it and nothing was removed
+    for cid, c in spec["ctors"].items():
+        if pred(cid):
+            c.pop("module_import", None)
 
 
 def _nested_bps(spec):
@@ -165,13 +170,17 @@ def op_singleton_registered_twice(rng, spec, m):
         t = rng.choice(spec_types)
         target = rng.choice(nests)
         routes = [it[1] for (_bp, _i, it) in _bp_items(target) if it[0] == "route"]
-        if routes:
+        # the specialisation must be needed outside the nested blueprint too (a route registered directly at the root),
+        # otherwise the generic constructor is never specialised for it and the concrete one is its only constructor
+        root_routes = [it[1] for it in spec["bp"]["items"] if it[0] == "route"]
+        if routes and root_routes:
             new = gen_single[0] + "_cdup"
             spec["ctors"][new] = {"out": t, "ins": [], "lc": "singleton"}
             target["items"].insert(0, ["ctor", new])
-            h = spec["handlers"][routes[0]]
-            if all(tt != t for (tt, _) in h["ins"]):
-                h["ins"].append([t, "ref"])
+            for hid in (routes[0], root_routes[0]):
+                h = spec["handlers"][hid]
+                if all(tt != t for (tt, _) in h["ins"]):
+                    h["ins"].append([t, "ref"])
             return {"singleton": new, "variant": "concrete_next_to_generic"}
     if not nests or not singles:
         return None
